@@ -1,9 +1,11 @@
 package main
 
 import (
+	"errors"
 	"io"
 	"math/rand"
 	"strings"
+	"testing/iotest"
 	"time"
 
 	ysgo "github.com/remieven/ysgo"
@@ -147,7 +149,46 @@ func genLoad(r *rand.Rand, tier string) *sx.Node {
 	for _, t := range readers {
 		rs = append(rs, sx.Bytes([]byte(t)))
 	}
-	return sx.Tag("load", sx.Bytes(seed), sx.List(rs...))
+	c := sx.Tag("load", sx.Bytes(seed), sx.List(rs...))
+	// how the host's readers behave is not part of the script: one byte per Read, data together with EOF,
+	// empty reads; and, before this load, another load whose reader failed half-way (a third of the cases)
+	if r.Intn(3) == 0 {
+		c.L = append(c.L, sx.Tag("rmode", sx.Int(int64(1+r.Intn(4)))))
+	}
+	if r.Intn(3) == 0 {
+		c.L = append(c.L, sx.Tag("prefail", sx.Str([]string{"title: Ghost\n---\nghost line\n", "title: G\n---\n<<if true>>\n", "===\n", "title: Ghost\n---\nghost\n===\n", "x"}[r.Intn(5)])))
+	}
+	return c
+}
+
+// failingReader delivers its data and then fails with an error that is not io.EOF.
+type failingReader struct {
+	data []byte
+	done bool
+}
+
+func (f *failingReader) Read(p []byte) (int, error) {
+	if !f.done && len(f.data) > 0 {
+		n := copy(p, f.data)
+		f.data = f.data[n:]
+		return n, nil
+	}
+	return 0, errors.New("connection reset")
+}
+
+func readerIn(mode int, t string) io.Reader {
+	var rd io.Reader = strings.NewReader(t)
+	switch mode {
+	case 1:
+		return iotest.OneByteReader(rd)
+	case 2:
+		return iotest.DataErrReader(rd)
+	case 3:
+		return iotest.HalfReader(rd)
+	case 4:
+		return iotest.DataErrReader(iotest.OneByteReader(rd))
+	}
+	return rd
 }
 
 func runLoad(c *sx.Node) *sx.Node {
@@ -192,9 +233,19 @@ func runLoad(c *sx.Node) *sx.Node {
 			}
 			done <- res
 		}()
+		mode := 0
+		for _, x := range c.L[3:] {
+			switch x.TagName() {
+			case "rmode":
+				mode = int(x.L[1].Int())
+			case "prefail":
+				// an earlier load that failed while reading must leave nothing behind
+				ysgo.NewDialogueRunner(nil, "x", &failingReader{data: []byte(x.L[1].Text())})
+			}
+		}
 		readers := make([]io.Reader, len(texts))
 		for i, t := range texts {
-			readers[i] = strings.NewReader(t)
+			readers[i] = readerIn(mode, t)
 		}
 		dr, err := ysgo.NewDialogueRunner(nil, seed, readers...)
 		if err != nil {
